@@ -44,8 +44,8 @@ CHECKS = {
             "grow covers the request and is minimal (without the last spawned child it is not covered), releases keep the request covered and no releasable child is kept, released children have demand 0, children without demand are reaped, children are only created by the factory, never both active and released, only freshly spawned children ever become active, aggregates: Lean theorems for arbitrary child sets and factories; tied to factory.py by op histories (random + exhaustive small depth).",
             "Trusted: Lean kernel + standard axioms; model (sampling correspondence); set iteration order is an input taken from the implementation; factory children with positive demand; exact arithmetic; trio MockClock."),
     "C16": ("§6 C16",
-            "Lean 4 structural induction over decorator stacks (any depth/order of PoolDecorator, Logger, Standardiser, Buffer) + a model of %-template validation + differential correspondence with capturing log handlers + independent oracle",
-            "Supply/utilisation/allocation equal the base pool's through every stack and are untouched by demand reads/writes; plain/Logger stacks pass demand reads and writes through; every Logger emits exactly one record per write, before the write, with the value and the target's pre-write state; templates naming an unknown field are rejected at construction: Lean theorems; tied to _proxy.py, logger.py, standardiser.py, buffer.py by op sequences on generated stacks and by generated templates (known field names regenerated from _LOGGER_TEST_FIELDS on every run).",
+            "Lean 4 structural induction over decorator stacks (any depth/order of PoolDecorator, Logger, Standardiser, Buffer) and induction over whole operation histories (reads, writes, pool changes) + a model of %-template validation + differential correspondence with capturing log handlers + independent oracle",
+            "Supply/utilisation/allocation equal the base pool's through every stack and are untouched by demand reads/writes; plain/Logger stacks pass demand reads and writes through; every Logger emits exactly one record per write, before the write, with the value and the target's pre-write state, in any stack exactly the Loggers above the first Buffer emit, outermost first, at every point of every history (history_sua, history_records); templates naming an unknown field are rejected at construction: Lean theorems; tied to _proxy.py, logger.py, standardiser.py, buffer.py by op sequences on generated stacks and by generated templates (known field names regenerated from _LOGGER_TEST_FIELDS on every run).",
             "Trusted: Lean kernel + standard axioms; model (sampling correspondence); logging module (one record per log call); CPython % formatting (modelled subset, compared)."),
     "C18": ("§6 C18",
             "constructor tables regenerated from the live loader class into Lean on every run and table_safe re-proved by kernel computation (decide +kernel); Lean induction over document trees for the dispatch model; canary documents loaded in a child process as correspondence and failing-input search",
